@@ -31,7 +31,10 @@ CFG = {
             "barrier, every request carrying unique markers in path, query, body and a header. The request-context slice "
             "also runs over HTTP/1.1-over-TLS (tag transport:tls): a second server with the same endpoints started with "
             "ConfigTls::AsBytes, a tokio-rustls client; sequential requests on one TLS connection and 2 / 6 concurrent "
-            "TLS connections; the peer port the handler sees must be the client socket's local port. Non-trivial: every "
+            "TLS connections; the peer port the handler sees must be the client socket's local port. A slow-client slice (tag transport:slow-client; own server and threads, beside the "
+            "rest of the run): for JSON, url-encoded, untyped, streaming and multipart bodies a valid body in two or three "
+            "pieces with a silent pause of 5.5 / 10.5 / 31.5 s (thorough: also 61.5 / 121 s) in mid-body or between the "
+            "complete header block and the first body byte; the echo must equal the bytes sent. Non-trivial: every "
             "case except an empty raw body; distinct by case content.",
     "trusted_base": COMMON_TB + [
         "serde_json (library): Section variables json_de/json_ser with the contract json_de (json_ser v) = Some v; "
